@@ -149,3 +149,52 @@ def c23(res, tier, seed):
     replay_tour(res, b, "wkt", tour2, key=tkey)
     n = 5000 if quick else 200000
     drive_and_validate(res, b, "wkt", "Trace_Wkt", seed, n, key=tkey)
+
+
+# ============================================================================ C45
+@check("C45")
+def c45(res, tier, seed):
+    b = build_harness(("wkt",))
+    quick = tier == "quick"
+    # the message types registered in the harness binary (for anypb round trips)
+    p = os.path.join(scratch(), "wkt-types-req.ndjson")
+    with open(p, "w") as fh:
+        fh.write(json.dumps({"op": "types"}) + "\n")
+    vlib.harness(b, ["exec", "structval", p, p + ".out"])
+    types = next(vlib.read_ndjson(p + ".out"))["out"]["types"]
+    if len(types) < 50:
+        raise vlib.Infra("only %d registered message types" % len(types))
+    tp = os.path.join(scratch(), "wkt-types.json")
+    with open(tp, "w") as fh:
+        json.dump({"types": types}, fh)
+    os.environ["WKT_TYPES"] = tp
+    tour = os.path.join(scratch(), "c45.tour")
+    seeds = "{1}" if quick else "{1, 2, 3, 4, 5, 6, 7, 8}"
+    r = tlc("MC_StructVal", cfg({"Tier": '"%s"' % tier, "Depth": 1 if quick else 2, "UrlLen": 4 if quick else 6, "Seeds": seeds},
+                                invariants=["Laws"], emit="Emit"), emit_to=tour, timeout=3000)
+    res.add_tlc(r, "Go values of depth <= %d over 46 leaves; Any URLs <= %d over {ab./} x 5 names; %d registered types x seeds; laws: "
+                   "NewValue ok <=> convertible, AsInterface.NewValue = Conv, identity on normal forms, idempotent, encoding/json = protojson "
+                   "when finite, MessageIs <=> MessageName =, New round trips" % (1 if quick else 2, 4 if quick else 6, len(types)))
+    res.exhaustive = True
+
+    def key(e):
+        o = e.get("exp") or e.get("out") or {}
+        if e["op"] == "newvalue":
+            sh = json.dumps(e["v"])
+            return ["newvalue", e["v"]["g"], o.get("ok"), o.get("pjok"), sh.count('"g"'), sorted(set(x for x in
+                    ("int8", "int16", "int32", "int64", "uint8", "uint16", "uint32", "uint64", "float32", "jnum", "bytes", "bad", "nan", "inf") if '"%s"' % x in sh))]
+        if e["op"] == "anyurl":
+            return ["anyurl", _txt(e["n"]), o.get("is"), o.get("new"), len(_txt(o.get("name", []))) > 0, _txt(e["url"]).count("/")]
+        return ["anyrt", _txt(e["type"])]
+    replay_tour(res, b, "structval", tour, key=key)
+    n = 5000 if quick else 150000
+    drive_and_validate(res, b, "structval", "Trace_StructVal", seed, n, key=key)
+    res.extra["registered_types"] = len(types)
+    res.rule = ("tour: every JSON-like Go value up to the depth bound over 46 leaves (all integer widths at their limits and around 2^53, "
+                "floats incl. NaN/Inf/-0, json.Number, valid/invalid UTF-8, []byte, a non-JSON type) with the specified Value, AsInterface "
+                "result, encoding/json and protojson images; every URL string up to the bound x 5 message names; every registered message "
+                "type x seeds through anypb.New/UnmarshalTo/UnmarshalNew/MessageIs/MessageName; distinct = (op, kind set, verdicts, size) "
+                "resp. (name, verdicts) resp. type; driver: random nested Go values, random URLs, random types with random contents")
+    res.assumptions.append("float64(n) for integers |n| > 2^53 is an uninterpreted function: its value travels with the case (computed by the "
+                           "Go conversion in the driver, quoted from IEEE 754 in the tour)")
+    res.assumptions.append("MessageSet types are excluded from the anypb round trips (they need the protolegacy build tag)")
